@@ -122,7 +122,7 @@ macro_rules! tree_api {
                     "dlen" => $mut::<$K, $V>::data_len(op.args[0] as usize).to_string(),
                     "fill" => {
                         // probe on a private copy: insert fresh keys until refused
-                        let mut copy = ABuf::new(bytes, 1, 0x77);
+                        let mut copy = ABuf::new_skewed(bytes, 1, 0x77, (bytes.as_ptr() as usize) % 16);
                         let mut n = 0usize;
                         {
                             let mut t = $mut::<$K, $V>::from_bytes_mut(copy.bytes_mut());
@@ -161,6 +161,8 @@ tree_api!(T32u64u64, AVLTreeMut, AVLTree, 4, 24, u32, u64, u64);
 tree_api!(T32i64u64, AVLTreeMut, AVLTree, 4, 24, u32, i64, u64);
 tree_api!(T32logu8, AVLTreeMut, AVLTree, 4, 24, u32, LogKey, u8);
 tree_api!(T32a32u64, AVLTreeMut, AVLTree, 4, 24, u32, A32, u64);
+tree_api!(T32u128u64, AVLTreeMut, AVLTree, 4, 24, u32, u128, u64);
+tree_api!(T8u128u8, U8AVLTreeMut, U8AVLTree, 1, 8, u8, u128, u8);
 tree_api!(T8a32a32, U8AVLTreeMut, U8AVLTree, 1, 8, u8, A32, A32);
 
 /// Independent reading of the documented format (harness-side; used for the
@@ -303,7 +305,7 @@ impl<A: TreeApi> TreeSut<A> {
     /// What the API itself reports about a state (read-only view, on a private copy):
     /// `get` for every key of the universe, `len`, `capacity`. `None` if a query panics.
     fn api_contents(&self, state: &[u8]) -> Option<(BTreeMap<i128, i128>, usize, usize)> {
-        let mut copy = ABuf::new(state, 2, 0x11);
+        let mut copy = ABuf::new_skewed(state, 2, 0x11, self.skew());
         let r = guarded(|| {
             let mut m = BTreeMap::new();
             for k in &self.keys {
@@ -428,7 +430,9 @@ impl<A: TreeApi> Sut for TreeSut<A> {
             Op::new("fill", &[self.fresh_base, (d.cap + 2) as i128])
         } else if r < 99 && d.slots < self.max_slots {
             let room = (self.max_slots - d.slots) as u64;
-            Op::new("ext", &[1 + rng.below(room.min(3)) as i128])
+            // mostly small steps, sometimes many records at once
+            let n = if rng.chance(1, 4) { 1 + rng.below(room) } else { 1 + rng.below(room.min(3)) };
+            Op::new("ext", &[n as i128])
         } else {
             Op::new("gmq", &[k])
         }
@@ -446,8 +450,17 @@ impl<A: TreeApi> Sut for TreeSut<A> {
             _ => false,
         }
     }
+    fn skew(&self) -> usize {
+        // the records (after the header) must be aligned for the key/value types
+        let al = A::IW.max(A::key().1).max(A::val().1);
+        (al - A::HDR % al) % al
+    }
+    fn alt_skew(&self) -> usize {
+        let al = A::IW.max(A::key().1).max(A::val().1);
+        (self.skew() + al) % 16
+    }
     fn sessionable(&self, op: &Op) -> bool {
-        !matches!(op.name, "ext" | "open" | "fill")
+        !matches!(op.name, "ext" | "open" | "fill" | "dlen")
     }
     fn session(&self, buf: &mut ABuf, ops: &[Op]) -> Option<Vec<String>> {
         take_log();
@@ -504,7 +517,7 @@ impl<A: TreeApi> Sut for TreeSut<A> {
         };
         // C04: the mutable view of the same bytes (when opening it is the identity) reports the same contents
         if dq.slots <= dq.cap {
-            let mut copy = ABuf::new(post, 1, 0x22);
+            let mut copy = ABuf::new_skewed(post, 1, 0x22, self.skew());
             let viaw = guarded(|| {
                 let mut m2 = BTreeMap::new();
                 for k in &self.keys {
